@@ -225,12 +225,12 @@ Example replace_sound_example :
   let t := T 0 [T 1 [] []; T 2 [T 3 [] []] []] [] in
   let e := EReplace [] Body 0 1 [T 7 [] []; T 8 [] []] in let c := CNode [(Body, 1); (Body, 0)] in
   valid_edit t e /\ valid_cursor t c /\
-  exists t' c', apply_edit e t = Some t' /\ fwd_edit false e t c = Ok c'.
+  exists t' c', apply_edit e t = Some t' /\ fwd_edit code_now e t c = Ok c'.
 Proof. vm_compute. repeat split; eauto. Qed.
 
 Example delete_sound_example :
   let t := T 0 [T 1 [] []; T 2 [T 3 [] []] []] [] in
   let e := EDelete [(Body, 1)] Body 0 1 9 in let c := CBlock [] Body 0 2 in
   valid_edit t e /\ valid_cursor t c /\
-  exists t' c', apply_edit e t = Some t' /\ fwd_edit false e t c = Ok c'.
+  exists t' c', apply_edit e t = Some t' /\ fwd_edit code_now e t c = Ok c'.
 Proof. vm_compute. repeat split; eauto. Qed.
